@@ -8,6 +8,11 @@
 (*   close {c}         logged before the harness ends the connection (half-close / DISCONNECT)         *)
 (*   gone {c}          logged after the broker closed the socket: its teardown is complete             *)
 (*   sample {n}        len(Broker.clients) read under Broker.Lock by a sampling goroutine              *)
+(*   abandon {c}       logged before a client that has not read its CONNACK yet closes its connection  *)
+(*                     (the broker's write of the CONNACK then fails); followed by gone {c} when        *)
+(*                     Broker.handleConn has returned.  The attempt took effect before (the broker       *)
+(*                     registers a connection before it writes the CONNACK): an accepted one gives its     *)
+(*                     slot back between abandon and gone - if it still has it.                             *)
 (* TLC searches for a linearisation: every attempt takes effect (contract action Accept or Refuse)     *)
 (* at a silent step between its inv and its ret, every release between close and gone.                  *)
 EXTENDS Integers, FiniteSets, Sequences, Json, TLC, IOUtils
@@ -44,12 +49,14 @@ TClose == /\ IsEvent("close") /\ E.c \in DOMAIN ph /\ ph[E.c] = "up"
 LinRelease(c) == /\ ph[c] = "closing"
                  /\ held' = IF idof[c] \in DOMAIN held /\ held[idof[c]] = c THEN Without(held, idof[c]) ELSE held
                  /\ ph' = [ph EXCEPT ![c] = "released"] /\ UNCHANGED <<l, cap, idof>>
+TAbandon == /\ IsEvent("abandon") /\ E.c \in DOMAIN ph /\ ph[E.c] \in {"acc", "ref"}
+            /\ ph' = [ph EXCEPT ![E.c] = IF ph[E.c] = "acc" THEN "closing" ELSE "released"] /\ UNCHANGED <<cap, held, idof>>
 TGone == /\ IsEvent("gone") /\ E.c \in DOMAIN ph /\ ph[E.c] = "released"
          /\ ph' = [ph EXCEPT ![E.c] = "done"] /\ UNCHANGED <<cap, held, idof>>
 (* the broker's own count never exceeds the cap, and is the number of slots held at some linearisation *)
 TSample == IsEvent("sample") /\ E.n <= cap /\ E.n = NH /\ UNCHANGED <<cap, held, idof, ph>>
 
-TNext == TReset \/ TInv \/ TRet \/ TClose \/ TGone \/ TSample
+TNext == TReset \/ TInv \/ TRet \/ TClose \/ TAbandon \/ TGone \/ TSample
          \/ \E c \in DOMAIN ph : LinAccept(c) \/ LinRefuse(c) \/ LinRelease(c)
 TSpec == l = 1 /\ cap = 0 /\ held = <<>> /\ idof = <<>> /\ ph = <<>> /\ [][TNext]_tvars
 
